@@ -1,11 +1,22 @@
-"""Stream F (DESIGN Part II §2.4): the annotation files shipped in /repo/tests/data, each value perturbed by a per-file
-offset, read through mir_eval.io, scored by the real code and by the model on the exact decimal values.
+"""Stream F (DESIGN Part II §2.4): inputs derived from the annotation files shipped in /repo/tests/data.
 
-Only hit-based event metrics are run on this stream (beat F-measure after trimming, onset F/P/R): a case is kept only if no
-|ref_i - est_j| lies within 1e-6 of the window (decided in exact arithmetic), so that binary64 and the rational model take
-the same side of every comparison."""
+Every file is read with the loader the task's own tests use (`mir_eval.io.load_*`), snapped to a lattice on which binary64
+performs the code's comparisons exactly as the rational model does (1/32 s for event / interval times, 1/16 s for notes,
+the task's hop written as a short decimal for melody / multipitch frames, a fraction-of-a-semitone lattice for pitches with
+windows kept >= 1/16 semitone (multipitch) or >= 1 cent (melody, transcription) away from every reachable difference),
+perturbed (drop / duplicate / shift a subset, swap two labels, merge two adjacent segments, truncate the estimate, estimate
+= reference, reference <-> estimate, cut both to a sub-span), written back as text and read AGAIN through the real loader
+inside `call`, so the implementation side of every case runs `mir_eval.io` + the metric on the exact values the model got.
+
+Two older suites (`onset_fixtures`, `beat_fixtures`) keep the files' own decimal time stamps (plus a per-file offset) and
+only run hit-based metrics on them, dropping a case when some |ref_i - est_j| lies within 1e-6 of the window.
+
+Sizes: a case holds at most ~150 events / notes / frames in the quick tier (contiguous excerpt of the file), ~400 in
+thorough.  Tags are `fixture:<task>:<perturbation>`.
+"""
 import glob
 import io
+import math
 import os
 from decimal import Decimal
 from fractions import Fraction as Fr
@@ -17,7 +28,214 @@ import core
 from core import Case
 
 DATA = os.path.join(core.REPO, "tests", "data")
+LAT = 32
+RULE_NOTE = ("stream F: the annotation files under tests/data read through mir_eval.io, snapped to the exact lattice "
+             "(1/32 s, notes 1/16 s, melody / multipitch frames on their own decimal hop, pitches on a fraction-of-a-"
+             "semitone lattice with margins), perturbed (drop / duplicate / shift a subset, swap labels, merge / split "
+             "segments, truncate head or tail, estimate = reference, reference <-> estimate, sub-span) and read again "
+             "through the real loader; at most ~150 events / notes / frames per case in quick, ~400 in thorough; cases "
+             "tagged fixture:<task>:<perturbation>")
 
+
+# ------------------------------------------------------------------------------------------------
+# files, caching, exact text
+
+def have(task):
+    return os.path.isdir(os.path.join(DATA, task))
+
+
+def _pairs(task, ext="txt"):
+    refs = sorted(glob.glob(os.path.join(DATA, task, "ref*." + ext)))
+    out = []
+    for r in refs:
+        e = os.path.join(os.path.dirname(r), os.path.basename(r).replace("ref", "est", 1))
+        if os.path.exists(e):
+            out.append((r, e))
+    return out
+
+
+_CACHE = {}
+
+
+def cached(key, fn):
+    if key not in _CACHE:
+        import warnings
+        with warnings.catch_warnings():
+            warnings.simplefilter("ignore")
+            _CACHE[key] = fn()
+    return _CACHE[key]
+
+
+def load(loader, path):
+    """a fixture file through the real loader (cached per process; the arrays are never modified)"""
+    return cached((loader.__name__, path), lambda: loader(path))
+
+
+def nmax(tier, quick=150, thorough=400):
+    return quick if tier == "quick" else thorough
+
+
+def reps(tier, quick=3, thorough=24):
+    return quick if tier == "quick" else thorough
+
+
+def plan(pairs, tier, shard, nshards, kinds, quick=3, thorough=24):
+    """(file pair, perturbation) for this shard: every perturbation is met in every tier, files rotate"""
+    idx = 0
+    for k in range(reps(tier, quick, thorough)):
+        for pi, p in enumerate(pairs):
+            idx += 1
+            if idx % nshards != shard:
+                continue
+            yield p, kinds[(k * len(pairs) + pi + k) % len(kinds)]
+
+
+def snap(x, lat=LAT):
+    return Fr(int(round(float(x) * lat)), lat)
+
+
+def dec(v):
+    """exact decimal text of a rational whose denominator divides a power of ten (lattice values, short decimals)"""
+    v = Fr(v)
+    d = v.denominator
+    k = 0
+    while d % 2 == 0:
+        d //= 2
+        k += 1
+    m = 0
+    while d % 5 == 0:
+        d //= 5
+        m += 1
+    assert d == 1, "not a finite decimal: %r" % (v,)
+    p = max(k, m)
+    n = v.numerator * (10 ** p // v.denominator)
+    s = "%d" % abs(n)
+    if p:
+        s = s.rjust(p + 1, "0")
+        s = s[:-p] + "." + s[-p:]
+    return ("-" if n < 0 else "") + s
+
+
+def S(x):
+    if isinstance(x, (list, tuple)):
+        return [S(v) for v in x]
+    if isinstance(x, Fr):
+        return str(x)
+    return x
+
+
+def base(p):
+    return os.path.basename(p)
+
+
+# ---- the same exact values as text, through the real loaders (what the implementation side receives)
+
+def io_events(vals):
+    if not vals:
+        return np.zeros(0)
+    return mir_eval.io.load_events(io.StringIO("".join(dec(v) + "\n" for v in vals)))
+
+
+def io_intervals(iv):
+    if not iv:
+        return np.zeros((0, 2))
+    return mir_eval.io.load_intervals(io.StringIO("".join("%s\t%s\n" % (dec(a), dec(b)) for a, b in iv)))
+
+
+def io_labeled(iv, labels):
+    if not iv:
+        return np.zeros((0, 2)), []
+    txt = "".join("%s\t%s\t%s\n" % (dec(a), dec(b), l) for (a, b), l in zip(iv, labels))
+    return mir_eval.io.load_labeled_intervals(io.StringIO(txt))
+
+
+def io_valued(iv, vals):
+    """vals are floats (Hz): repr() round-trips exactly through float()"""
+    if not iv:
+        return np.zeros((0, 2)), np.zeros(0)
+    txt = "".join("%s\t%s\t%r\n" % (dec(a), dec(b), float(v)) for (a, b), v in zip(iv, vals))
+    return mir_eval.io.load_valued_intervals(io.StringIO(txt))
+
+
+def io_time_series(ts, vals):
+    if not ts:
+        return np.zeros(0), np.zeros(0)
+    txt = "".join("%s\t%r\n" % (dec(t), float(v)) for t, v in zip(ts, vals))
+    return mir_eval.io.load_time_series(io.StringIO(txt))
+
+
+def io_ragged(ts, frames):
+    if not ts:
+        return np.zeros(0), []
+    txt = "".join(dec(t) + "".join("\t%r" % float(v) for v in f) + "\n" for t, f in zip(ts, frames))
+    return mir_eval.io.load_ragged_time_series(io.StringIO(txt))
+
+
+# ------------------------------------------------------------------------------------------------
+# generic perturbations of (reference, estimate) item lists; `shift(item, d)` moves an item in time
+
+EVENT_KINDS = ["asis", "drop", "dup", "shift", "truncate", "self", "swap", "subspan", "drop+shift", "head", "self+head",
+               "self+shift"]
+
+
+def excerpt(rng, ref, est, key, n):
+    """a contiguous excerpt of at most n reference items and the estimate items in the same time span"""
+    if len(ref) <= n and len(est) <= n + n // 4:
+        return list(ref), list(est)
+    if len(ref) <= n:
+        lo, hi = key(ref[0]) if ref else Fr(0), key(ref[-1]) if ref else Fr(0)
+        i0 = 0
+    else:
+        i0 = rng.randrange(len(ref) - n + 1)
+        lo, hi = key(ref[i0]), key(ref[i0 + n - 1])
+    r = list(ref[i0:i0 + n])
+    e = [x for x in est if lo - 1 <= key(x) <= hi + 1][:n + n // 4]
+    return r, e
+
+
+def perturb(rng, ref, est, kind, shift, key, step):
+    ref, est = list(ref), list(est)
+    for k in kind.split("+"):
+        if k == "asis":
+            pass
+        elif k == "self":
+            est = list(ref)
+        elif k == "swap":
+            ref, est = est, ref
+        elif k == "drop":
+            est = [x for x in est if rng.random() >= 0.2]
+        elif k == "dup":
+            out = []
+            for x in est:
+                out.append(x)
+                if rng.random() < 0.1:
+                    out.append(x)
+            est = out
+        elif k == "shift":
+            est = [shift(x, rng.choice([-3, -2, -1, 1, 2, 3]) * step) if rng.random() < 0.3 else x for x in est]
+            est = sorted((x for x in est if key(x) >= 0), key=key)
+        elif k == "truncate":
+            est = est[:rng.randint(len(est) // 3, len(est))] if est else est
+        elif k == "head":
+            est = est[rng.randint(len(est) // 4, len(est) // 2):]      # the estimate starts late
+        elif k == "subspan":
+            if ref:
+                lo, hi = key(ref[0]), key(ref[-1])
+                a = lo + (hi - lo) * Fr(rng.randint(0, 4), 8)
+                b = a + (hi - lo) / 2
+                ref = [x for x in ref if a <= key(x) <= b]
+                est = [x for x in est if a <= key(x) <= b]
+        else:
+            raise ValueError(kind)
+    return ref, est
+
+
+def ftag(task, kind):
+    return "fixture:%s:%s" % (task, kind)
+
+
+# ------------------------------------------------------------------------------------------------
+# onset, beat (older decimal suites): the files' own decimals + a per-file offset, hit-based metrics only
 
 def _read(path):
     """first column of every non-comment line, rounded to 6 decimals (so the perturbed values stay short decimals)"""
@@ -30,84 +248,1206 @@ def _read(path):
     return out
 
 
-def _pairs(task):
-    refs = sorted(glob.glob(os.path.join(DATA, task, "ref*.txt")))
-    out = []
-    for r in refs:
-        e = r.replace("ref", "est")
-        if os.path.exists(e):
-            out.append((r, e))
-    return out
-
-
-def _perturb(vals, k):
+def _offset(vals, k):
     # a per-file offset that is not a multiple of any default threshold, cumulative so that order is preserved
     d = Fr(1234577 + 1000 * k, 10 ** 10)
     return [v + d * (i % 7 + 1) for i, v in enumerate(vals)]
 
 
 def _safe(ref, est, w, margin=Fr(1, 10 ** 6)):
+    j0 = 0
     for r in ref:
-        for e in est:
-            if abs(abs(r - e) - w) <= margin:
+        while j0 < len(est) and est[j0] < r - w - 1:
+            j0 += 1
+        j = j0
+        while j < len(est) and est[j] <= r + w + 1:
+            if abs(abs(r - est[j]) - w) <= margin:
                 return False
+            j += 1
     return True
-
-
-def _through_io(vals):
-    """write the perturbed values as a text file and load them back with the real loader (exact decimal text)"""
-    txt = "".join("%s\n" % format(Decimal(v.numerator) / Decimal(v.denominator), "f") for v in vals)
-    return mir_eval.io.load_events(io.StringIO(txt))
-
-
-def _dec(v):
-    # exact: denominators are powers of ten
-    return v
 
 
 def suite_onset_fixtures(rng, tier, shard, nshards):
     pairs = _pairs("onset")
-    reps = 2 if tier == "quick" else 20
     idx = 0
     for rp, ep in pairs:
-        for k in range(reps):
+        for k in range(reps(tier, 2, 20)):
             idx += 1
             if idx % nshards != shard:
                 continue
-            ref = sorted(_perturb(_read(rp), rng.randint(0, 999)))
-            est = sorted(_perturb(_read(ep), rng.randint(0, 999)))
+            ref = sorted(_offset(_read(rp), rng.randint(0, 999)))
+            est = sorted(_offset(_read(ep), rng.randint(0, 999)))
             w = rng.choice([Fr(1, 20), Fr(1, 40), Fr(1, 10), Fr(7, 100)])
             if not _safe(ref, est, w):
                 continue
 
             def call(ref=ref, est=est, w=w):
-                f, p, r = mir_eval.onset.f_measure(_through_io(ref), _through_io(est), window=float(w))
+                f, p, r = mir_eval.onset.f_measure(io_events(ref), io_events(est), window=float(w))
                 return [p, r, f]
-            yield Case("hitmetric.event_prf", [ref, est, w, Fr(1)], call, tag="onset fixture w=%s" % w,
-                       info={"ref_file": os.path.basename(rp), "est_file": os.path.basename(ep), "window": str(w), "n_ref": len(ref),
+            yield Case("hitmetric.event_prf", [ref, est, w, Fr(1)], call, tag=ftag("onset", "decimal-offset"),
+                       info={"ref_file": base(rp), "est_file": base(ep), "window": str(w), "n_ref": len(ref),
                              "n_est": len(est)}, nontrivial=True)
 
 
 def suite_beat_fixtures(rng, tier, shard, nshards):
     pairs = _pairs("beat")
-    reps = 2 if tier == "quick" else 20
     idx = 0
     for rp, ep in pairs:
-        for k in range(reps):
+        for k in range(reps(tier, 2, 20)):
             idx += 1
             if idx % nshards != shard:
                 continue
-            ref = [v for v in sorted(_perturb(_read(rp), rng.randint(0, 999))) if v >= 5]
-            est = [v for v in sorted(_perturb(_read(ep), rng.randint(0, 999))) if v >= 5]
+            ref = [v for v in sorted(_offset(_read(rp), rng.randint(0, 999))) if v >= 5]
+            est = [v for v in sorted(_offset(_read(ep), rng.randint(0, 999))) if v >= 5]
             w = rng.choice([Fr(7, 100), Fr(1, 20), Fr(1, 10)])
             if not _safe(ref, est, w):
                 continue
 
             def call(ref=ref, est=est, w=w):
-                return mir_eval.beat.f_measure(_through_io(ref), _through_io(est), f_measure_threshold=float(w))
-            yield Case("hitmetric.event_prf", [ref, est, w, Fr(1)], call, tag="beat fixture w=%s" % w,
-                       info={"ref_file": os.path.basename(rp), "est_file": os.path.basename(ep), "window": str(w), "n_ref": len(ref),
+                return mir_eval.beat.f_measure(io_events(ref), io_events(est), f_measure_threshold=float(w))
+            yield Case("hitmetric.event_prf", [ref, est, w, Fr(1)], call, tag=ftag("beat", "decimal-offset"),
+                       info={"ref_file": base(rp), "est_file": base(ep), "window": str(w), "n_ref": len(ref),
                              "n_est": len(est)}, nontrivial=True, post=lambda v: v[2])
 
 
-SUITES = {"onset_fixtures": suite_onset_fixtures, "beat_fixtures": suite_beat_fixtures}
+# ------------------------------------------------------------------------------------------------
+# events on the 1/32 s lattice: onset, beat (all metrics), matching (C05), alignment
+
+def lattice_events(path, lat=LAT):
+    ev = load(mir_eval.io.load_events, path)
+    return sorted(snap(t, lat) for t in ev)
+
+
+def event_pair(rng, tier, rp, ep, kind, n=None):
+    ref, est = lattice_events(rp), lattice_events(ep)
+    ref, est = excerpt(rng, ref, est, lambda t: t, n or nmax(tier))
+    return perturb(rng, ref, est, kind, lambda t, d: t + d, lambda t: t, Fr(1, LAT))
+
+
+def _finfo(rp, ep, kind, **kw):
+    d = {"ref_file": base(rp), "est_file": base(ep), "perturbation": kind}
+    d.update(kw)
+    return d
+
+
+def suite_onset(rng, tier, shard, nshards):
+    """onset.f_measure / onset.evaluate on lattice-snapped onset files"""
+    from suites import onset as SO
+    for (rp, ep), kind in plan(_pairs("onset"), tier, shard, nshards, EVENT_KINDS):
+        ref, est = event_pair(rng, tier, rp, ep, kind)
+        w = rng.choice([Fr(1, 20), Fr(1, 20), Fr(1, 32), Fr(1, 16), Fr(1, 10), Fr(7, 100)])
+        info = _finfo(rp, ep, kind, op="onset.f_measure", args=S([ref, est, w]))
+        yield Case("onset.f_measure", [ref, est, w],
+                   lambda ref=ref, est=est, w=w: mir_eval.onset.f_measure(io_events(ref), io_events(est), window=float(w)),
+                   tag=ftag("onset", kind), info=info, nontrivial=bool(ref and est))
+        yield Case("onset.evaluate", [ref, est, None],
+                   lambda ref=ref, est=est: mir_eval.onset.evaluate(io_events(ref), io_events(est)),
+                   tag=ftag("onset", kind), info=dict(info, op="onset.evaluate", args=S([ref, est, None])),
+                   nontrivial=bool(ref and est))
+
+
+def _beat_case(op, args, tag, info, nontrivial=True):
+    """suites.beat.case with the beat lists handed to the real code through io.load_events"""
+    from suites import beat as SB
+
+    def real(op=op, args=args):
+        a = [io_events(x) if isinstance(x, list) and (not x or isinstance(x[0], Fr)) and i < 2 else x
+             for i, x in enumerate(args)]
+        return SB.REAL[op](*a)
+    info = dict(info, op=op, args=SB.jargs(args))
+    if op.endswith("_checked"):
+        return SB.checked(op, args, real, tag, info, nontrivial, SB.MERGE.get(op))
+    return Case(op, args, real, tag=tag, info=info, nontrivial=nontrivial)
+
+
+def suite_beat(rng, tier, shard, nshards):
+    """every beat metric (and evaluate) on lattice-snapped beat files; thresholds at their documented defaults"""
+    from suites import beat as SB
+    for (rp, ep), kind in plan(_pairs("beat"), tier, shard, nshards, EVENT_KINDS):
+        ref0, est0 = event_pair(rng, tier, rp, ep, kind)
+        tag, info = ftag("beat", kind), _finfo(rp, ep, kind)
+        ps = list(SB.DEFAULTS)
+        if not SB._is_dyadic(ps[8]) and SB.period_tie_possible([v for v in ref0 if v >= 5], [v for v in est0 if v >= 5], ps[8]):
+            ps[8] = Fr(1, 8)
+        yield _beat_case("beat.evaluate_checked", [ref0, est0, ps], tag, info, len(ref0) >= 2 and len(est0) >= 2)
+        yield _beat_case("beat.trim_beats", [ref0, Fr(5)], tag, info)
+        ref = [v for v in ref0 if v >= 5]
+        est = [v for v in est0 if v >= 5]
+        nt = len(ref) >= 2 and len(est) >= 2
+        yield _beat_case("beat.f_measure", [ref, est, Fr(7, 100)], tag, info, nt)
+        yield _beat_case("beat.cemgil", [ref, est, Fr(1, 25)], tag, info, nt)
+        yield _beat_case("beat.goto_checked", [ref, est, Fr(7, 20), Fr(1, 5), Fr(1, 5)], tag, info, nt)
+        yield _beat_case("beat.p_score", [ref, est, Fr(1, 5)], tag, info, nt)
+        q = Fr(7, 40)
+        if SB.period_tie_possible(ref, est, q):
+            q = Fr(1, 8)
+        yield _beat_case("beat.continuity", [ref, est, Fr(7, 40), q], tag, info, nt)
+        yield _beat_case("beat.information_gain_checked", [ref, est, 41], tag, info, nt)
+        # the literal correlate-and-slice reading of p_score on a short excerpt (its model is quadratic in the train length)
+        r2, e2 = ref[:24], [v for v in est if not ref[:24] or v <= ref[:24][-1] + 1][:30]
+        yield _beat_case("beat.p_score_literal", [r2, e2, Fr(1, 5)], tag, info, len(r2) >= 2 and len(e2) >= 2)
+
+
+
+def _hk_case(adj_items, tag, info):
+    """util._bipartite_match on an adjacency dict in insertion order vs the transliterated Hopcroft-Karp (pair for pair)"""
+    adj = [[int(u), [int(v) for v in vs]] for u, vs in adj_items]
+
+    def call(adj=adj):
+        G = {}
+        for u, vs in adj:
+            G[u] = list(vs)
+        m = sorted(mir_eval.util._bipartite_match(G).items())
+        return [[[int(v), int(u)] for v, u in m], len(m)]
+    return Case("util._bipartite_match", [adj], call, tag=tag, info=dict(info, adj=adj), nontrivial=any(vs for _, vs in adj))
+
+
+def suite_matching(rng, tier, shard, nshards):
+    """C05 on realistic hit graphs: beat / onset files, narrow and wide windows (a wide window makes a banded graph in
+    which the matching is far from forced); the pairing the real util.match_events returns goes through the proved checker"""
+    pairs = _pairs("beat") + _pairs("onset")
+    for (rp, ep), kind in plan(pairs, tier, shard, nshards, EVENT_KINDS, quick=2, thorough=12):
+        ref, est = event_pair(rng, tier, rp, ep, kind, n=nmax(tier, 120, 300))
+        task = "beat" if os.sep + "beat" + os.sep in rp else "onset"
+        w = rng.choice([Fr(1, 20), Fr(7, 100), Fr(1, 4), Fr(1, 2), Fr(1), Fr(3, 2)])
+        tag = ftag("matching(%s files)" % task, kind)
+        info = _finfo(rp, ep, kind, ref=S(ref), est=S(est), window=str(w))
+        try:
+            a, b = io_events(ref), io_events(est)
+            prs = [(int(x), int(y)) for x, y in mir_eval.util.match_events(a, b, float(w))]
+            res = [True, len(prs), len(prs), True]
+            call = (lambda r=res: r)
+        except Exception as e:  # noqa: BLE001
+            prs = []
+            call = (lambda e=e: (_ for _ in ()).throw(e))
+        yield Case("matching.check_events", [ref, est, w, [list(p) for p in prs]], call, tag=tag, info=info,
+                   nontrivial=bool(ref and est))
+
+        def hits(ref=ref, est=est, w=w):
+            x, y = mir_eval.util._fast_hit_windows(io_events(ref), io_events(est), float(w))
+            return sorted([int(i), int(j)] for i, j in zip(x, y))
+        yield Case("util._fast_hit_windows", [ref, est, w], hits, tag=tag, info=info, nontrivial=bool(ref and est))
+        yield Case("matching.hit_pairs", [ref, est, w], hits, tag=tag, info=info, nontrivial=bool(ref and est))
+        yield Case("util.match_events.size", [ref, est, w],
+                   lambda ref=ref, est=est, w=w: len(mir_eval.util.match_events(io_events(ref), io_events(est), float(w))),
+                   tag=tag, info=info, nontrivial=bool(ref and est))
+        # the adjacency dict exactly as match_events builds it (estimate -> references, in enumeration order)
+        G = {}
+        for i, j in zip(*mir_eval.util._fast_hit_windows(io_events(ref), io_events(est), float(w))):
+            G.setdefault(int(j), []).append(int(i))
+        yield _hk_case(list(G.items()), tag, _finfo(rp, ep, kind, window=str(w)))
+
+
+def suite_alignment(rng, tier, shard, nshards):
+    """alignment metrics: the (short) alignment files, and onset / beat reference files read as long word-onset sequences
+    against a displaced copy (the task needs equally long sequences)"""
+    from suites import alignment as SA
+    kinds = ["asis", "shift", "self", "swap", "subspan", "shift+subspan", "truncate"]
+    srcs = [(p, "alignment") for p in _pairs("alignment")] + [(p, "alignment(onset files)") for p in _pairs("onset")[:5]] + \
+           [(p, "alignment(beat files)") for p in _pairs("beat")[:5]]
+    for ((rp, ep), task), kind in plan(srcs, tier, shard, nshards, kinds, quick=2, thorough=12):
+        ref = lattice_events(rp)
+        if task == "alignment":
+            est = lattice_events(ep)
+        else:
+            est = sorted(max(Fr(0), t + Fr(rng.choice([0, 0, 1, -1, 2, -3, 5, -8, 10, 16, -24]), LAT)) for t in ref)
+        n = min(len(ref), len(est), nmax(tier))
+        i0 = rng.randint(0, len(ref) - n) if len(ref) == len(est) else 0
+        ref, est = ref[i0:i0 + n], est[i0:i0 + n]
+        for k in kind.split("+"):
+            if k == "shift":
+                est = sorted(max(Fr(0), t + Fr(rng.choice([-9, -3, -1, 1, 3, 9, 10]), LAT)) if rng.random() < 0.4 else t
+                             for t in est)
+            elif k == "self":
+                est = list(ref)
+            elif k == "swap":
+                ref, est = est, ref
+            elif k == "subspan" and n > 2:
+                a = rng.randint(0, n // 2)
+                b = rng.randint(a + 1, n)
+                ref, est = ref[a:b], est[a:b]
+            elif k == "truncate" and n > 1:
+                m = rng.randint(1, len(ref))
+                ref, est = ref[:m], est[:m]
+        if not ref:
+            continue
+        hi = max(ref + est)
+        d = rng.choice([None, hi, hi + Fr(rng.randint(1, 320), LAT)])
+        w = rng.choice([Fr(3, 10), Fr(3, 10), Fr(1, 8), Fr(1, 2), Fr(1)])
+        tag = ftag(task, kind)
+
+        def mk(op, args):
+            def call(op=op, args=args):
+                a = [io_events(x) if isinstance(x, list) else x for x in args]
+                return SA.IMPL[op](*a)
+            return Case(op, args, call, tag=tag, info=_finfo(rp, ep, kind, op=op, args=S(args)), nontrivial=len(ref) >= 2)
+        yield mk("alignment.absolute_error", [ref, est])
+        yield mk("alignment.percentage_correct", [ref, est, w])
+        yield mk("alignment.percentage_correct_segments", [ref, est, d])
+        yield mk("alignment.karaoke_perceptual_metric", [ref, est])
+        yield mk("alignment.evaluate", [ref, est, None, d])
+
+
+# ------------------------------------------------------------------------------------------------
+# labelled intervals on the 1/32 s lattice: segment (boundaries + frame clustering), chord, hierarchy
+
+def lattice_labeled(path, lat=LAT):
+    """[[start, end, label]] snapped to the lattice; intervals that the snapping empties are dropped"""
+    iv, labels = load(mir_eval.io.load_labeled_intervals, path)
+    out = []
+    for (a, b), l in zip(iv, labels):
+        a, b = snap(a, lat), snap(b, lat)
+        if a < b:
+            out.append([a, b, l])
+    return out
+
+
+def crop(segs, a, b, rebase=True):
+    out = []
+    for s, e, l in segs:
+        s2, e2 = max(s, a), min(e, b)
+        if s2 < e2:
+            out.append([s2 - a, e2 - a, l] if rebase else [s2, e2, l])
+    return out
+
+
+SEG_KINDS = ["asis", "self", "swap", "merge", "split", "swaplabels", "shift", "truncate", "subspan", "merge+shift",
+             "subspan+swaplabels"]
+
+
+def seg_perturb(rng, ref, est, kind, lat=LAT):
+    ref, est = [list(x) for x in ref], [list(x) for x in est]
+    for k in kind.split("+"):
+        if k == "self":
+            est = [list(x) for x in ref]
+        elif k == "swap":
+            ref, est = est, ref
+        elif k == "merge":
+            for _ in range(rng.choice([1, 1, 2, 4])):
+                if len(est) >= 2:
+                    i = rng.randrange(len(est) - 1)
+                    if est[i][1] == est[i + 1][0]:
+                        est[i:i + 2] = [[est[i][0], est[i + 1][1], est[i][2]]]
+        elif k == "split":
+            for _ in range(rng.choice([1, 2, 4])):
+                if est:
+                    i = rng.randrange(len(est))
+                    s, e, l = est[i]
+                    if (e - s) * lat >= 2:
+                        m = s + Fr(rng.randint(1, int((e - s) * lat) - 1), lat)
+                        est[i:i + 1] = [[s, m, l], [m, e, l]]
+        elif k == "swaplabels":
+            if len(est) >= 2:
+                i, j = rng.sample(range(len(est)), 2)
+                est[i][2], est[j][2] = est[j][2], est[i][2]
+        elif k == "shift":
+            # move interior boundaries that two consecutive segments share, keeping every duration positive
+            for i in range(len(est) - 1):
+                if est[i][1] == est[i + 1][0] and rng.random() < 0.4:
+                    d = Fr(rng.choice([-16, -3, -1, 1, 3, 16, 17]), lat)
+                    nb = est[i][1] + d
+                    if est[i][0] < nb < est[i + 1][1]:
+                        est[i][1] = est[i + 1][0] = nb
+        elif k == "truncate":
+            if len(est) >= 2:
+                est = est[:rng.randint(max(1, len(est) // 2), len(est) - 1)]
+        elif k == "subspan":
+            if ref:
+                lo, hi = ref[0][0], ref[-1][1]
+                a = lo + Fr(int((hi - lo) * lat * Fr(rng.randint(0, 4), 8)), lat)
+                b = a + Fr(int((hi - lo) * lat / 2), lat)
+                ref, est = crop(ref, a, b, rebase=False), crop(est, a, b, rebase=False)
+        elif k != "asis":
+            raise ValueError(kind)
+    return ref, est
+
+
+def seg_limit(rng, ref, est, n):
+    """at most n reference segments (contiguous run) and the estimate over the same time span"""
+    if len(ref) > n:
+        i0 = rng.randrange(len(ref) - n + 1)
+        ref = ref[i0:i0 + n]
+        est = crop(est, ref[0][0], ref[-1][1], rebase=False)
+    if len(est) > 2 * n:
+        est = est[:2 * n]
+    return ref, est
+
+
+def ivs(segs):
+    return [[s, e] for s, e, _ in segs]
+
+
+def labs(segs):
+    return [l for _, _, l in segs]
+
+
+def suite_segment_boundary(rng, tier, shard, nshards):
+    """segment.detection (0.5 s and 3 s windows, trim on/off) and segment.deviation on the segment files"""
+    for (rp, ep), kind in plan(_pairs("segment", "lab"), tier, shard, nshards, SEG_KINDS):
+        ref, est = seg_perturb(rng, lattice_labeled(rp), lattice_labeled(ep), kind)
+        ri, ei = ivs(ref), ivs(est)
+        tag = ftag("segment", kind)
+        for w, trim in ((Fr(1, 2), False), (Fr(3), False), (Fr(1, 2), True), (rng.choice([Fr(1, 4), Fr(1), Fr(3)]), True)):
+            beta = rng.choice([Fr(1), Fr(1), Fr(1, 2), Fr(2)])
+
+            def call(ref=ref, est=est, w=w, beta=beta, trim=trim):
+                return mir_eval.segment.detection(io_labeled(ivs(ref), labs(ref))[0], io_labeled(ivs(est), labs(est))[0],
+                                                  window=float(w), beta=float(beta), trim=trim)
+            yield Case("segment.detection", [ri, ei, w, beta, trim], call, tag=tag,
+                       info=_finfo(rp, ep, kind, op="segment.detection", args=S([ri, ei, w, beta, trim])),
+                       nontrivial=bool(ri and ei))
+        for trim in (False, True):
+            def call(ref=ref, est=est, trim=trim):
+                return mir_eval.segment.deviation(io_labeled(ivs(ref), labs(ref))[0], io_labeled(ivs(est), labs(est))[0],
+                                                  trim=trim)
+            yield Case("segment.deviation", [ri, ei, trim], call, tag=tag,
+                       info=_finfo(rp, ep, kind, op="segment.deviation", args=S([ri, ei, trim])), nontrivial=bool(ri and ei))
+
+
+def partition(segs, T=None):
+    """what segment.evaluate's adjust_intervals amounts to, done on exact values without inventing labels: the first
+    segment is extended back to 0, the last one is cropped / extended to T"""
+    segs = [list(x) for x in segs]
+    if not segs:
+        return segs
+    t0 = segs[0][0]
+    segs = [[s - t0, e - t0, l] for s, e, l in segs] if t0 < 0 else segs
+    segs[0][0] = Fr(0)
+    if T is not None:
+        segs = [[s, min(e, T), l] for s, e, l in segs if s < T]
+        segs[-1][1] = T
+    return segs
+
+
+def suite_segment_frames(rng, tier, shard, nshards):
+    """the six frame-clustering scores on the segment files: lattice boundaries with dyadic frame sizes, and the default
+    0.1 s frame with boundaries moved to the middle of a frame (k/10 + 1/20: >= 0.05 s from every frame time)"""
+    from props import c16
+    nfr = nmax(tier, 150, 400)
+    for (rp, ep), kind in plan(_pairs("segment", "lab"), tier, shard, nshards, SEG_KINDS):
+        decimal = rng.random() < 0.4
+        fs = Fr(1, 10) if decimal else rng.choice([Fr(1, 2), Fr(1), Fr(1), Fr(2)])
+        ref, est = lattice_labeled(rp), lattice_labeled(ep)
+        # an excerpt of at most nfr frames, starting at a reference boundary
+        span = ref[-1][1] - ref[0][0]
+        if span / fs > nfr:
+            a = rng.choice(ref)[0]
+            a = min(a, ref[-1][1] - nfr * fs)
+            a = max(snap(a), ref[0][0])
+            ref, est = crop(ref, a, a + nfr * fs), crop(est, a, a + nfr * fs)
+        if not ref or not est:
+            continue
+        ref, est = seg_perturb(rng, ref, est, kind)
+        if not ref or not est:
+            continue
+        ref = partition(ref)
+        est = partition(est, ref[-1][1])
+        if decimal:
+            def mid(t):
+                return Fr(int(t * 10), 10) + Fr(1, 20)
+
+            def remap(segs):
+                out = []
+                for s, e, l in segs:
+                    s, e = (Fr(0) if s == 0 else mid(s)), mid(e)
+                    if s < e:
+                        out.append([s, e, l])
+                return out
+            ref, est = remap(ref), remap(est)
+            if not ref or not est:
+                continue
+            est = partition(est, ref[-1][1])
+        # contiguity (a perturbation may have left a gap after a truncation / crop): close gaps
+        for segs in (ref, est):
+            for i in range(len(segs) - 1):
+                segs[i][1] = segs[i + 1][0]
+        if any(s >= e for s, e, _ in ref + est):
+            continue
+        r3, e3 = [tuple(x) for x in ref], [tuple(x) for x in est]
+        beta = rng.choice([Fr(1), Fr(1), Fr(1, 2), Fr(2)])
+        flags = c16.degenerate_flags(r3, e3, fs)
+        for op in c16.OPS:
+            t = "plain"
+            if op == "segment.nce":
+                t = rng.choice(["plain", "marginal"])
+            c = c16.make_case(op, r3, e3, fs, beta, t, flags)
+            # the implementation side reads the same annotation through io.load_labeled_intervals
+            c.call = _frames_call(op, r3, e3, fs, beta, t == "marginal", flags)
+            c.tag = ftag("segment", kind + ("/fs=0.1" if decimal else "/fs=%s" % fs))
+            c.info = dict(c.info, ref_file=base(rp), est_file=base(ep), perturbation=kind)
+            yield c
+
+
+def _frames_call(op, ref, est, fs, beta, marginal, flags):
+    from props import c16
+    S_ = mir_eval.segment
+    ami_ill, nmi_ill, _ = flags
+    f, b = float(fs), float(beta)
+
+    def call():
+        ri, rl = io_labeled(ivs(ref), labs(ref))
+        ei, el = io_labeled(ivs(est), labs(est))
+        if op == "segment.pairwise":
+            return S_.pairwise(ri, rl, ei, el, frame_size=f, beta=b)
+        if op == "segment.rand_index":
+            return S_.rand_index(ri, rl, ei, el, frame_size=f)
+        if op == "segment.ari":
+            return S_.ari(ri, rl, ei, el, frame_size=f)
+        if op == "segment.mutual_information":
+            return c16.fix_mi(list(map(float, S_.mutual_information(ri, rl, ei, el, frame_size=f))), ami_ill, nmi_ill)
+        if op == "segment.nce":
+            return S_.nce(ri, rl, ei, el, frame_size=f, beta=b, marginal=marginal)
+        return S_.vmeasure(ri, rl, ei, el, frame_size=f, beta=b)
+    return call
+
+
+
+# ---- chord
+
+def chord_root_token(label, reference):
+    """root pitch class from the label text (own parser, not mir_eval's): N -> -1; X -> -2 in a reference (not
+    comparable), -1 in an estimate (the encoder gives X the root -1, which equals N's)"""
+    if label == "N":
+        return -1
+    if label == "X":
+        return -2 if reference else -1
+    root = label.split(":")[0].split("/")[0]
+    pc = {"C": 0, "D": 2, "E": 4, "F": 5, "G": 7, "A": 9, "B": 11}[root[0]]
+    return (pc + root.count("#") - root.count("b")) % 12
+
+
+def chord_enc_token(label):
+    """one token per distinct encoding (root, bitmap, bass): N -> -1 (what evaluate pads with), anything else >= 100"""
+    from props import c12
+    if label == "N":
+        return -1
+    return 100 + c12.token_of(label)
+
+
+def overlaps(ref, est):
+    """(ref label, est label) of every pair of overlapping intervals (exact)"""
+    out = []
+    j = 0
+    for s, e, l in ref:
+        while j < len(est) and est[j][1] <= s:
+            j += 1
+        k = j
+        while k < len(est) and est[k][0] < e:
+            if max(s, est[k][0]) < min(e, est[k][1]):
+                out.append((l, est[k][2]))
+            k += 1
+    return out
+
+
+def suite_chord(rng, tier, shard, nshards):
+    """the chord files: real label strings through the modelled encoder and the twelve comparison rules, and real interval
+    grids through merge_chord_intervals / over-, under-segmentation / the root accuracy of chord.evaluate"""
+    import chordlabels as cl
+    from props import c12
+    C = mir_eval.chord
+    kinds = SEG_KINDS + ["drop"]
+    for (rp, ep), kind in plan(_pairs("chord", "lab"), tier, shard, nshards, kinds):
+        ref, est = seg_limit(rng, lattice_labeled(rp), lattice_labeled(ep), nmax(tier, 120, 300))
+        if kind == "drop":
+            est = [x for x in est if rng.random() >= 0.15]      # gaps: evaluate pads / merges differently
+        else:
+            ref, est = seg_perturb(rng, ref, est, kind)
+        if not ref or not est:
+            continue
+        tag = ftag("chord", kind)
+        ri, rl, ei, el = ivs(ref), labs(ref), ivs(est), labs(est)
+        info = _finfo(rp, ep, kind, ref=S(ri), ref_labels=rl, est=S(ei), est_labels=el)
+
+        def evaluate(ref=ref, est=est):
+            a, al = io_labeled(ivs(ref), labs(ref))
+            b, bl = io_labeled(ivs(est), labs(est))
+            return C.evaluate(a, al, b, bl)
+        # root accuracy: tokens = root pitch classes
+        rt = [chord_root_token(l, True) for l in rl]
+        et = [chord_root_token(l, False) for l in el]
+        yield Case("chord.evaluate_tokens", [ri, rt, ei, et], lambda ev=evaluate: [ev()["root"]], tag=tag,
+                   info=dict(info, rt=rt, et=et, what="root"), post=lambda v: v[:1])
+        # segmentation scores: tokens = encodings (adjacent equal encodings are merged, as the code does)
+        rt2 = [chord_enc_token(l) for l in rl]
+        et2 = [chord_enc_token(l) for l in el]
+        yield Case("chord.evaluate_tokens", [ri, rt2, ei, et2],
+                   lambda ev=evaluate: (lambda sc: [sc["underseg"], sc["overseg"], sc["seg"]])(ev()), tag=tag,
+                   info=dict(info, rt=rt2, et=et2, what="segmentation"), post=lambda v: v[1:])
+        yield Case("chord.merge_chord_intervals", [ei, et2],
+                   lambda est=est: C.merge_chord_intervals(*io_labeled(ivs(est), labs(est))), tol=0.0, tag=tag,
+                   info=dict(info, what="merge"))
+        for op, fn in (("chord.directional_hamming_distance", C.directional_hamming_distance), ("chord.overseg", C.overseg),
+                       ("chord.underseg", C.underseg), ("chord.seg", C.seg)):
+            yield Case(op, [ri, ei], lambda fn=fn, ref=ref, est=est: fn(io_labeled(ivs(ref), labs(ref))[0],
+                                                                         io_labeled(ivs(est), labs(est))[0]),
+                       tag=tag, info=dict(info, what=op))
+        # the twelve comparison rules on the label pairs that meet in time
+        prs = overlaps(ref, est)
+        for k in range(0, len(prs), 64):
+            part = prs[k:k + 64]
+            refs, ests = [p[0] for p in part], [p[1] for p in part]
+            yield Case("chord.compare_all", [[cl.enc_arg(r) for r in refs], [cl.enc_arg(e) for e in ests]],
+                       lambda refs=refs, ests=ests: [cl.rule_fn(r)(refs, ests) for r in cl.RULES], tag=tag,
+                       info={"ref": refs, "est": ests, "ref_file": base(rp), "est_file": base(ep)},
+                       nontrivial=any(a != "X" and cl.enc(a)[0] == cl.enc(b)[0] for a, b in part))
+
+
+def suite_chord_labels(rng, tier, shard, nshards):
+    """every distinct label string of the chord files through the modelled grammar / encoder (all four flag pairs), and
+    the label sequence of each file through encode_many"""
+    from props import c10
+    C = mir_eval.chord
+    files = sorted(glob.glob(os.path.join(DATA, "chord", "*.lab")))
+    seen, k = set(), 0
+    for f in files:
+        seq = labs(lattice_labeled(f))
+        for l in seq:
+            if l in seen:
+                continue
+            seen.add(l)
+            k += 1
+            if k % nshards != shard:
+                continue
+            for r in (False, True):
+                for sb in (False, True):
+                    yield Case("chord.encode", [l, r, sb],
+                               lambda l=l, r=r, sb=sb: list(C.encode(l, reduce_extended_chords=r, strict_bass_intervals=sb)),
+                               tag=ftag("chord", "labels"), info={"label": l, "reduce": r, "strict": sb, "file": base(f)})
+            yield Case("chord.accept", [l], lambda l=l: [c10.grammar(l) is not None, C.CHORD_RE.match(l) is not None],
+                       tag=ftag("chord", "labels"), info={"label": l, "file": base(f)})
+        k += 1
+        if k % nshards == shard:
+            part = seq[:nmax(tier, 150, 1000)]
+            r = rng.random() < 0.5
+            yield Case("chord.encode_many", [part, r],
+                       lambda part=part, r=r: list(C.encode_many(part, reduce_extended_chords=r)),
+                       tag=ftag("chord", "label-sequence"), info={"labels": part, "reduce": r, "file": base(f)})
+
+
+# ---- hierarchy
+
+HIER_KINDS = ["asis", "self", "swap", "merge", "split", "swaplabels", "shift", "droplevel", "flat", "merge+shift"]
+
+
+def suite_hierarchy(rng, tier, shard, nshards):
+    """T-measure, L-measure and evaluate on excerpts of the two-level hierarchy files (and on the flat segment files read
+    as one-level hierarchies), frame sizes 1/4, 1/2, 1 s, windows None / 15 s / small"""
+    H = mir_eval.hierarchy
+    srcs = []
+    hr = sorted(glob.glob(os.path.join(DATA, "hierarchy", "ref*.lab")))
+    he = sorted(glob.glob(os.path.join(DATA, "hierarchy", "est*.lab")))
+    if hr and he:
+        srcs += [((hr, he), "hierarchy")] * 3
+    srcs += [(([r], [e]), "hierarchy(segment files)") for r, e in _pairs("segment", "lab")[:4]]
+    nfr = nmax(tier, 100, 240)
+    for ((rfs, efs), task), kind in plan(srcs, tier, shard, nshards, HIER_KINDS, quick=3, thorough=16):
+        fs = rng.choice([Fr(1, 4), Fr(1, 2), Fr(1)])
+        ref = [lattice_labeled(f) for f in rfs]
+        est = [lattice_labeled(f) for f in efs]
+        end = min(lv[-1][1] for lv in ref + est)
+        L = min(nfr * fs, Fr(int(end)))
+        a = Fr(rng.randint(0, int((end - L) * 4)), 4)
+        if rng.random() < 0.3:
+            a = Fr(int(a))
+        ref = [partition(crop(lv, a, a + L), L) for lv in ref]
+        est = [partition(crop(lv, a, a + L), L) for lv in est]
+        for k in kind.split("+"):
+            if k == "self":
+                est = [[list(x) for x in lv] for lv in ref]
+            elif k == "swap":
+                ref, est = est, ref
+            elif k == "droplevel":
+                est = est[:-1] if len(est) > 1 else est
+            elif k == "flat":
+                est = est[-1:]
+            elif k != "asis":
+                est = [seg_perturb(rng, [], lv, k)[1] for lv in est]
+        if any(not lv for lv in ref + est):
+            continue
+        R, RL, E, EL = [ivs(lv) for lv in ref], [labs(lv) for lv in ref], [ivs(lv) for lv in est], [labs(lv) for lv in est]
+        tag = ftag(task, kind)
+        beta = rng.choice([Fr(1), Fr(1), Fr(1, 2), Fr(2)])
+        window = rng.choice([None, Fr(15), Fr(15), 2 * fs, Fr(5)])
+        tr = rng.random() < 0.5
+
+        def through(hier):
+            out = [io_labeled(ivs(lv), labs(lv)) for lv in hier]
+            return [x[0] for x in out], [x[1] for x in out]
+        from props import c17
+        extra = _finfo(rfs[0], efs[0], kind, excerpt=[str(a), str(a + L)])
+        info_t = dict(c17.t_input(R, E, tr, window, fs, beta), **extra)
+        info_l = dict(c17.l_input(R, RL, E, EL, fs, beta), **extra)
+        info_e = dict({"ref": R, "ref_labels": RL, "est": E, "est_labels": EL, "window": window, "frame_size": fs,
+                       "beta": beta}, **extra)
+
+        def call_t(ref=ref, est=est, tr=tr, window=window, fs=fs, beta=beta):
+            return H.tmeasure(through(ref)[0], through(est)[0], transitive=tr,
+                              window=None if window is None else float(window), frame_size=float(fs), beta=float(beta))
+        yield Case("hierarchy.tmeasure", [R, E, tr, window, fs, beta], call_t, tag=tag, info=info_t)
+
+        def call_l(ref=ref, est=est, fs=fs, beta=beta):
+            a_, al = through(ref)
+            b_, bl = through(est)
+            return H.lmeasure(a_, al, b_, bl, frame_size=float(fs), beta=float(beta))
+        yield Case("hierarchy.lmeasure", [R, RL, E, EL, fs, beta], call_l, tag=tag, info=info_l)
+
+        def call_e(ref=ref, est=est, window=window, fs=fs, beta=beta):
+            a_, al = through(ref)
+            b_, bl = through(est)
+            return H.evaluate(a_, al, b_, bl, window=None if window is None else float(window), frame_size=float(fs),
+                              beta=float(beta))
+        yield Case("hierarchy.evaluate", [R, RL, E, EL, window, fs, beta], call_e, tag=tag, info=info_e)
+
+
+
+# ------------------------------------------------------------------------------------------------
+# melody: millisecond time stamps (the files' own 3-decimal grid), pitch in quarter cents above 10 Hz
+
+MEL_BASE = 10.0
+MEL_KINDS = ["asis", "self", "swap", "dropframes", "timeshift", "octave", "detune", "unvoice", "negate", "truncate",
+             "subspan", "detune+dropframes"]
+
+
+def melody_series(path):
+    t, f = load(mir_eval.io.load_time_series, path)
+    ts = [Fr(int(round(float(x) * 1000)), 1000) for x in t]
+    out = []
+    for x in f:
+        x = float(x)
+        if x == 0:
+            out.append([0, Fr(0)])
+        else:
+            c = Fr(int(round(1200.0 * math.log2(abs(x) / MEL_BASE) * 4)), 4)
+            out.append([1 if x > 0 else -1, c])
+    # strictly increasing time stamps only (rounding to ms can merge two frames)
+    keep = [i for i in range(len(ts)) if i == 0 or ts[i] > ts[i - 1]]
+    return [ts[i] for i in keep], [out[i] for i in keep]
+
+
+def suite_melody(rng, tier, shard, nshards):
+    """melody.evaluate / to_cent_voicing on excerpts of the melody files (reference hop ~5.8 ms written in ms, estimate hop
+    10 ms): the estimate is resampled onto the reference grid or both onto a constant hop; cases whose pitch decisions come
+    within 1 cent of the tolerance are not sent (`melody.evaluate_margin`)"""
+    from suites import melody as SM
+    M = mir_eval.melody
+    n = nmax(tier, 150, 300)
+    cands = []
+    for (rp, ep), kind in plan(_pairs("melody"), tier, shard, nshards, MEL_KINDS):
+        rt, rf = melody_series(rp)
+        et, ef = melody_series(ep)
+        i0 = 0 if rng.random() < 0.25 else rng.randrange(max(1, len(rt) - n))
+        t0, t1 = rt[i0], rt[min(i0 + n, len(rt)) - 1]
+        R = [[t - t0, p] for t, p in zip(rt[i0:i0 + n], rf[i0:i0 + n])]
+        E = [[t - t0, p] for t, p in zip(et, ef) if t0 <= t <= t1]
+        for k in kind.split("+"):
+            if k == "self":
+                E = [[t, list(p)] for t, p in R]
+            elif k == "swap":
+                R, E = E, R
+            elif k == "dropframes":
+                E = [x for x in E if rng.random() >= 0.15]
+            elif k == "timeshift":
+                d = Fr(rng.choice([1, 2, 3, 4]), 1000)
+                E = [[t + d, p] for t, p in E]
+            elif k in ("octave", "detune"):
+                d = Fr(1200) if k == "octave" else Fr(rng.choice([-60, -30, 20, 40, 70]))
+                E = [[t, [p[0], p[1] + d]] if p[0] != 0 and rng.random() < 0.3 and p[1] + d > 0 else [t, p] for t, p in E]
+            elif k == "unvoice":
+                E = [[t, [0, Fr(0)]] if rng.random() < 0.2 else [t, p] for t, p in E]
+            elif k == "negate":
+                E = [[t, [-p[0], p[1]]] if rng.random() < 0.2 else [t, p] for t, p in E]
+            elif k == "truncate":
+                E = E[:rng.randint(len(E) // 3, len(E))] if E else E
+            elif k == "subspan":
+                m = len(R) // 2
+                a = rng.randint(0, len(R) - m) if R else 0
+                if R:
+                    lo, hi = R[a][0], R[min(a + m, len(R)) - 1][0]
+                    R = [x for x in R if lo <= x[0] <= hi]
+                    E = [x for x in E if lo <= x[0] <= hi]
+        if len(R) < 2 or len(E) < 2:
+            continue
+        if R[0][0] != 0:                      # the excerpt starts at the first reference frame
+            d = R[0][0]
+            R = [[t - d, p] for t, p in R]
+            E = [[t - d, p] for t, p in E if t - d >= 0]
+            if len(E) < 2:
+                continue
+        hop = rng.choice([None, None, None, Fr(1, 100), Fr(29, 5000)])
+        if hop is not None and not (SM.off_grid(R[-1][0], hop) and SM.off_grid(E[-1][0], hop)):
+            hop = None
+        mk = rng.choice(["linear", "linear", "linear", "zero"])
+        tol = rng.choice([Fr(50), Fr(50), Fr(50), Fr(25), Fr(100)])
+        a = [[t for t, _ in R], [p for _, p in R], [t for t, _ in E], [p for _, p in E], None, None, hop, mk, tol]
+        cands.append((a, rp, ep, kind))
+    ms = SM.margins([c[0] for c in cands])
+    for (a, rp, ep, kind), m in zip(cands, ms):
+        if isinstance(m, Fr) and m < 1:
+            continue
+        rt, rf, et, ef, _, _, hop, mk, tol = a
+        tag = ftag("melody", kind)
+        info = _finfo(rp, ep, kind, rt=S(rt), rf=S(rf), et=S(et), ef=S(ef), hop=S(hop), interp=mk, tol=str(tol), base=MEL_BASE)
+        nt = any(p[0] != 0 for p in rf) and any(p[0] != 0 for p in ef)
+
+        def series(rt=rt, rf=rf, et=et, ef=ef):
+            return io_time_series(rt, [SM.hz(p, MEL_BASE) for p in rf]) + io_time_series(et, [SM.hz(p, MEL_BASE) for p in ef])
+
+        def call_e(series=series, hop=hop, mk=mk, tol=tol):
+            kw = {"kind": mk, "base_frequency": MEL_BASE, "cent_tolerance": float(tol)}
+            if hop is not None:
+                kw["hop"] = float(hop)
+            x = series()
+            return M.evaluate(x[0], x[1], x[2], x[3], **kw)
+        yield Case("melody.evaluate", a, call_e, tag=tag, info=info, nontrivial=nt)
+
+        def call_t(series=series, hop=hop, mk=mk):
+            kw = {"kind": mk, "base_frequency": MEL_BASE}
+            if hop is not None:
+                kw["hop"] = float(hop)
+            x = series()
+            return list(M.to_cent_voicing(x[0], x[1], x[2], x[3], **kw))
+        yield Case("melody.to_cent_voicing", a[:8], call_t, tag=tag, info=info, nontrivial=nt)
+
+
+# ------------------------------------------------------------------------------------------------
+# multipitch: the files' 10 ms frame grid as decimals, pitches on a 1/3- or 1/8-semitone MIDI lattice
+
+MP_KINDS = ["asis", "self", "swap", "dropframes", "droppitches", "timeshift", "octave", "detune", "addpitch", "truncate",
+            "subspan", "detune+dropframes"]
+
+
+def multipitch_series(path):
+    t, fr = load(mir_eval.io.load_ragged_time_series, path)
+    ts = [Fr(int(round(float(x) * 100)), 100) for x in t]
+    midi = [[69.0 + 12.0 * math.log2(float(v) / 440.0) for v in f] for f in fr]
+    keep = [i for i in range(len(ts)) if i == 0 or ts[i] > ts[i - 1]]
+    return [ts[i] for i in keep], [midi[i] for i in keep]
+
+
+def suite_multipitch(rng, tier, shard, nshards):
+    """multipitch.metrics / evaluate / resample_multipitch / compute_num_true_positives on excerpts of the multi-f0 files.
+    Frame times stay on the files' 0.01 s grid (estimate frames are only dropped in adjacent pairs and the whole estimate is
+    only displaced by 3 ms, so no reference time sits half-way between two estimate frames)"""
+    from suites import multipitch as SP
+    mp = mir_eval.multipitch
+    n = nmax(tier, 150, 300)
+    for (rp, ep), kind in plan(_pairs("multipitch"), tier, shard, nshards, MP_KINDS):
+        den, w = (3, rng.choice([None, None, Fr(1, 2), Fr(1, 4), Fr(3, 4)])) if rng.random() < 0.6 else \
+                 (8, rng.choice([Fr(1, 4), Fr(1, 2), Fr(1)]) + rng.choice([-1, 1]) * Fr(1, 16))
+        rt, rm = multipitch_series(rp)
+        et, em = multipitch_series(ep)
+        i0 = rng.randrange(max(1, len(rt) - n))
+        t0, t1 = rt[i0], rt[min(i0 + n, len(rt)) - 1]
+
+        def lat(f):
+            return [Fr(int(round(m * den)), den) for m in f]
+        R = [[t, lat(f)] for t, f in zip(rt[i0:i0 + n], rm[i0:i0 + n])]
+        E = [[t, lat(f)] for t, f in zip(et, em) if t0 <= t <= t1]
+        for k in kind.split("+"):
+            if k == "self":
+                E = [[t, list(f)] for t, f in R]
+            elif k == "swap":
+                R, E = E, R
+            elif k == "dropframes":
+                out, skip = [], 0
+                for x in E:
+                    if skip:
+                        skip -= 1
+                        continue
+                    if rng.random() < 0.08:
+                        skip = 1              # this frame and the next one
+                        continue
+                    out.append(x)
+                E = out
+            elif k == "droppitches":
+                E = [[t, [m for m in f if rng.random() >= 0.25]] for t, f in E]
+            elif k == "timeshift":
+                E = [[t + Fr(3, 1000), f] for t, f in E]
+            elif k in ("octave", "detune"):
+                d = Fr(12) if k == "octave" else Fr(rng.choice([-2, -1, 1, 2]), den)
+                E = [[t, [m + d if rng.random() < 0.3 and m + d < 120 else m for m in f]] for t, f in E]
+            elif k == "addpitch":
+                E = [[t, f + [Fr(rng.randint(40 * den, 90 * den), den)] if rng.random() < 0.2 else f] for t, f in E]
+            elif k == "truncate":
+                E = E[:rng.randint(len(E) // 3, len(E))] if E else E
+            elif k == "subspan":
+                if R:
+                    m_ = len(R) // 2
+                    a = rng.randint(0, len(R) - m_)
+                    lo, hi = R[a][0], R[min(a + m_, len(R)) - 1][0]
+                    R = [x for x in R if lo <= x[0] <= hi]
+                    E = [x for x in E if lo <= x[0] <= hi]
+        if not R or not E:
+            continue
+        rt_, rf_, et_, ef_ = [t for t, _ in R], [f for _, f in R], [t for t, _ in E], [f for _, f in E]
+        tag = ftag("multipitch", kind)
+        info = dict(SP.info_of(kind, rt_, rf_, et_, ef_, w), ref_file=base(rp), est_file=base(ep), perturbation=kind)
+        nt = any(rf_) and any(ef_)
+
+        def series(rt_=rt_, rf_=rf_, et_=et_, ef_=ef_):
+            a, b = io_ragged(rt_, [[SP.hz(m) for m in f] for f in rf_])
+            c, d = io_ragged(et_, [[SP.hz(m) for m in f] for f in ef_])
+            return a, b, c, d
+        kw = {} if w is None else {"window": float(w)}
+        yield Case("multipitch.metrics", [rt_, rf_, et_, ef_, w], lambda series=series, kw=kw: list(mp.metrics(*series(), **kw)),
+                   tag=tag, info=info, nontrivial=nt)
+        yield Case("multipitch.evaluate", [rt_, rf_, et_, ef_, w],
+                   lambda series=series, kw=kw: [[k, float(v)] for k, v in mp.evaluate(*series(), **kw).items()],
+                   tag=tag, info=info, nontrivial=nt)
+
+        def call_rs(et_=et_, ef_=ef_, rt_=rt_):
+            a, b = io_ragged(et_, [[float(m) for m in f] for f in ef_])
+            out = mp.resample_multipitch(a, b, io_events(rt_))
+            return [[float(x) for x in f] for f in out]
+        yield Case("multipitch.resample_multipitch", [et_, ef_, rt_], call_rs, tag=tag,
+                   info={"times": S(et_), "freqs": S(ef_), "target": S(rt_), "ref_file": base(rp), "est_file": base(ep)},
+                   nontrivial=bool(et_ and rt_))
+        # per-frame true positives in the MIDI domain (frames paired by position), plain and chroma-wrapped
+        m_ = min(len(rf_), len(ef_))
+        ww = Fr(1, 2) if w is None else w
+        for chroma in (False, True):
+            a, b = rf_[:m_], ef_[:m_]
+            if chroma:
+                a, b = [[m % 12 for m in f] for f in a], [[m % 12 for m in f] for f in b]
+
+            def call_tp(a=a, b=b, ww=ww, chroma=chroma):
+                return [int(x) for x in mp.compute_num_true_positives(SP.frames_midi(a), SP.frames_midi(b), window=float(ww),
+                                                                      chroma=chroma)]
+            yield Case("multipitch.compute_num_true_positives", [a, b, ww, chroma], call_tp, tag=tag,
+                       info={"ref_midi": S(a), "est_midi": S(b), "window": str(ww), "chroma": chroma, "ref_file": base(rp),
+                             "est_file": base(ep)}, nontrivial=any(a) and any(b))
+
+
+# ------------------------------------------------------------------------------------------------
+# transcription (+ velocity): note times on the 1/16 s (sometimes 1/32 s) lattice, pitch on a 0.3-semitone lattice
+
+NOTE_KINDS = ["asis", "self", "swap", "drop", "dup", "shift", "stretch", "transpose", "octave", "truncate", "subspan",
+              "drop+shift", "head", "self+head", "self+shift"]
+
+
+def _note_lattice(iv, hz, lat):
+    from suites import transcription as ST
+    out = []
+    for (a, b), f in zip(iv, hz):
+        on = snap(a, lat)
+        off = max(on + Fr(1, lat), snap(b, lat))
+        m = 69.0 + 12.0 * math.log2(float(f) / 440.0)
+        out.append([on, off, ST.PSTEP * int(round(m / float(ST.PSTEP)))])
+    return out
+
+
+def note_perturb(rng, ref, est, kind, lat):
+    from suites import transcription as ST
+    u = Fr(1, lat)
+
+    def shift(nt, d):
+        return [nt[0] + d, nt[1] + d] + list(nt[2:])
+    for k in kind.split("+"):
+        if k == "stretch":
+            est = [[nt[0], max(nt[0] + u, nt[1] + rng.choice([-4, -2, -1, 1, 2, 4]) * u)] + list(nt[2:])
+                   if rng.random() < 0.3 else nt for nt in est]
+        elif k in ("transpose", "octave"):
+            d = Fr(12) if k == "octave" else ST.PSTEP * rng.choice([-4, -3, -1, 1, 2, 3])
+            est = [[nt[0], nt[1], nt[2] + d] + list(nt[3:]) if rng.random() < 0.3 else nt for nt in est]
+        else:
+            ref, est = perturb(rng, ref, est, k, shift, lambda nt: nt[0], u)
+    return [list(x) for x in ref], [list(x) for x in est]
+
+
+def suite_transcription(rng, tier, shard, nshards):
+    """note matching and the note-level scores on excerpts of the transcription files; the pairing returned by the real
+    match_notes is compared with the model's pair for pair and run through the proved checker (C05)"""
+    from suites import transcription as ST
+    T = mir_eval.transcription
+    n = nmax(tier, 120, 300)
+    for (rp, ep), kind in plan(_pairs("transcription"), tier, shard, nshards, NOTE_KINDS):
+        lat = rng.choice([16, 16, 32])
+        ri, rh = load(mir_eval.io.load_valued_intervals, rp)
+        ei, eh = load(mir_eval.io.load_valued_intervals, ep)
+        ref, est = excerpt(rng, _note_lattice(ri, rh, lat), _note_lattice(ei, eh, lat), lambda nt: nt[0], n)
+        ref, est = note_perturb(rng, ref, est, kind, lat)
+        p = dict(ST.DEFAULTS) if rng.random() < 0.6 else ST.params(rng, lat)
+        tag = ftag("transcription", kind)
+        info = dict(ST.info(lat, p, ref, est), ref_file=base(rp), est_file=base(ep), perturbation=kind)
+        nt = bool(ref and est)
+        a = [ST.m_ivals(ref), ST.m_pitches(ref), ST.m_ivals(est), ST.m_pitches(est)] + ST.pargs(p)
+
+        def notes(ref=ref, est=est):
+            x, y = io_valued(ST.m_ivals(ref), [ST.hz(nt_[2]) for nt_ in ref])
+            z, w_ = io_valued(ST.m_ivals(est), [ST.hz(nt_[2]) for nt_ in est])
+            return x, y, z, w_
+        kw = ST.fkw(p, ST.K_NOTES)
+        yield Case("transcription.match_notes", a, lambda notes=notes, kw=kw: ST.pairs_of(T.match_notes(*notes(), **kw)),
+                   tag=tag, info=info, nontrivial=nt)
+        kwb = ST.fkw(p, ST.K_NOTES + ["beta"])
+        yield Case("transcription.precision_recall_f1_overlap", a + [p["beta"]],
+                   lambda notes=notes, kw=kwb: T.precision_recall_f1_overlap(*notes(), **kw), tag=tag, info=info, nontrivial=nt)
+        yield Case("transcription.evaluate", a + [p["beta"]], lambda notes=notes, kw=kwb: T.evaluate(*notes(), **kw),
+                   tag=tag, info=info, nontrivial=nt)
+        q = dict(p)
+        if q["offset_ratio"] is None:
+            q["offset_ratio"] = Fr(1, 5)
+
+        def call_on(notes=notes, kw=ST.fkw(q, ST.K_ONSET + ["beta"])):
+            x = notes()
+            return T.onset_precision_recall_f1(x[0], x[2], **kw)
+        yield Case("transcription.onset_precision_recall_f1",
+                   [ST.m_ivals(ref), ST.m_ivals(est), q["onset_tolerance"], q["strict"], q["beta"]], call_on, tag=tag,
+                   info=info, nontrivial=nt)
+
+        def call_off(notes=notes, kw=ST.fkw(q, ST.K_OFFSET + ["beta"])):
+            x = notes()
+            return T.offset_precision_recall_f1(x[0], x[2], **kw)
+        yield Case("transcription.offset_precision_recall_f1",
+                   [ST.m_ivals(ref), ST.m_ivals(est), q["offset_ratio"], q["offset_min_tolerance"], q["strict"], q["beta"]],
+                   call_off, tag=tag, info=info, nontrivial=nt)
+        # C05: the real pairing through the proved checker
+        try:
+            m = ST.pairs_of(T.match_notes(*notes(), **kw))
+            res = [True, len(m), len(m), True]
+            call = (lambda r=res: r)
+        except Exception as e:  # noqa: BLE001
+            m = []
+            call = (lambda e=e: (_ for _ in ()).throw(e))
+        yield Case("transcription.check_match_notes", a + [m], call, tag=tag, info=dict(info, kind="notes", pairs=m),
+                   nontrivial=nt)
+
+
+def _load_velocity(path):
+    """the loader of tests/test_transcription_velocity.py"""
+    starts, ends, pitches, velocities = mir_eval.io.load_delimited(path, [float, float, int, int])
+    return np.array([starts, ends]).T, np.array(pitches), np.array(velocities)
+
+
+def io_velocity(notes):
+    from suites import transcription as ST
+    if not notes:
+        return np.zeros((0, 2)), np.zeros(0), np.zeros(0)
+    txt = "".join("%s\t%s\t%r\t%d\n" % (dec(nt[0]), dec(nt[1]), ST.hz(nt[2]), int(nt[3])) for nt in notes)
+    st, en, pi, ve = mir_eval.io.load_delimited(io.StringIO(txt), [float, float, float, int])
+    return np.array([st, en]).T, np.array(pi, dtype=float), np.array(ve, dtype=float)
+
+
+def suite_transcription_velocity(rng, tier, shard, nshards):
+    """transcription_velocity on excerpts of its files (the pitch column is read as Hz, as the task's tests do); velocity
+    differences of the matched pairs keep a 1e-6 margin from the velocity tolerance, else the case is not sent"""
+    from suites import transcription as ST
+    T, TV = mir_eval.transcription, mir_eval.transcription_velocity
+    n = nmax(tier, 100, 250)
+    kinds = NOTE_KINDS + ["velocity", "velocity-scale"]
+    for (rp, ep), kind in plan(_pairs("transcription_velocity"), tier, shard, nshards, kinds):
+        lat = 16
+        ri, rpch, rv = load(_load_velocity, rp)
+        ei, epch, ev = load(_load_velocity, ep)
+        R = [x + [Fr(int(v))] for x, v in zip(_note_lattice(ri, rpch, lat), rv)]
+        E = [x + [Fr(int(v))] for x, v in zip(_note_lattice(ei, epch, lat), ev)]
+        R.sort(key=lambda nt: nt[0])
+        E.sort(key=lambda nt: nt[0])
+        ref, est = excerpt(rng, R, E, lambda nt: nt[0], n)
+        if kind == "velocity":
+            est = [nt[:3] + [max(Fr(0), nt[3] + rng.choice([-20, -5, -1, 1, 5, 20]))] if rng.random() < 0.4 else nt for nt in est]
+        elif kind == "velocity-scale":
+            est = [nt[:3] + [Fr(int(nt[3]) // 2 + 10)] for nt in est]
+        else:
+            ref, est = note_perturb(rng, ref, est, kind, lat)
+        p = dict(ST.DEFAULTS) if rng.random() < 0.6 else ST.params(rng, lat)
+        vt = rng.choice([Fr(1, 10), Fr(1, 10), Fr(1, 20), Fr(1, 4)])
+        rvel, evel = [nt[3] for nt in ref], [nt[3] for nt in est]
+        ok = True
+        for q in (p, dict(p, offset_ratio=None)):
+            try:
+                prs = ST.pairs_of(T.match_notes(ST.ivals(ref), ST.pitches(ref), ST.ivals(est), ST.pitches(est), **ST.fkw(q, ST.K_NOTES)))
+            except Exception:  # noqa: BLE001
+                prs = []
+            ok = ok and all(abs(d - vt) > Fr(1, 10 ** 6) for d in ST.vel_diffs(ref, est, rvel, evel, prs))
+        if not ok:
+            continue
+        tag = ftag("transcription_velocity", kind)
+        info = dict(ST.info(lat, p, [x[:3] for x in ref], [x[:3] for x in est], ref_vel=S(rvel), est_vel=S(evel), vel_tol=str(vt)),
+                    ref_file=base(rp), est_file=base(ep), perturbation=kind)
+        a = [ST.m_ivals(ref), ST.m_pitches(ref), rvel, ST.m_ivals(est), ST.m_pitches(est), evel] + ST.pargs(p) + [vt]
+        kw = ST.fkw(p, ST.K_NOTES)
+        kw["velocity_tolerance"] = float(vt)
+
+        def notes(ref=ref, est=est):
+            x = io_velocity(ref)
+            y = io_velocity(est)
+            return x[0], x[1], x[2], y[0], y[1], y[2]
+        nt = bool(ref and est)
+        yield Case("transcription_velocity.match_notes", a, lambda notes=notes, kw=kw: ST.pairs_of(TV.match_notes(*notes(), **kw)),
+                   tag=tag, info=info, nontrivial=nt)
+        kwb = dict(kw, beta=float(p["beta"]))
+        yield Case("transcription_velocity.precision_recall_f1_overlap", a + [p["beta"]],
+                   lambda notes=notes, kw=kwb: TV.precision_recall_f1_overlap(*notes(), **kw), tag=tag, info=info, nontrivial=nt)
+        yield Case("transcription_velocity.evaluate", a + [p["beta"]], lambda notes=notes, kw=kwb: TV.evaluate(*notes(), **kw),
+                   tag=tag, info=info, nontrivial=nt)
+
+
+# ------------------------------------------------------------------------------------------------
+# tempo, key, pattern
+
+def suite_tempo(rng, tier, shard, nshards):
+    """tempo.detection / evaluate on the tempo files (read with the tests' loader); the relative errors keep a 1e-6 margin
+    from the tolerance, else the case is not sent"""
+    def rd(path):
+        v = mir_eval.io.load_delimited(path, [float] * 3)
+        return [Fr(Decimal(repr(float(v[0][0])))), Fr(Decimal(repr(float(v[1][0])))), Fr(Decimal(repr(float(v[2][0]))))]
+    kinds = ["asis", "self", "swap", "double", "half", "triple", "jitter", "near-tolerance", "weight"]
+    pairs = _pairs("tempo", "lab")
+    for (rp, ep), kind in plan(pairs, tier, shard, nshards, kinds, quick=6, thorough=40):
+        r, e = load(rd, rp), load(rd, ep)
+        ref, w, est = list(r[:2]), r[2], list(e[:2])
+        tol = rng.choice([Fr(2, 25), Fr(2, 25), Fr(1, 25), Fr(1, 10), Fr(1, 2)])
+        if kind == "self":
+            est = list(ref)
+        elif kind == "swap":
+            ref, est = est, ref
+        elif kind in ("double", "half", "triple"):
+            est = [x * {"double": 2, "half": Fr(1, 2), "triple": 3}[kind] for x in ref]
+        elif kind == "jitter":
+            est = [x + Fr(rng.randint(-40, 40), 4) for x in est]
+            est = [x if x > 0 else Fr(1) for x in est]
+        elif kind == "near-tolerance":
+            est = [x * (1 + rng.choice([-1, 1]) * (tol + rng.choice([-1, 1]) * Fr(1, 1000))) for x in ref]
+            est = [Fr(int(x * 1000), 1000) for x in est]
+        elif kind == "weight":
+            w = rng.choice([Fr(0), Fr(1, 4), Fr(1, 2), Fr(3, 4), Fr(1)])
+        if any(rr > 0 and abs(abs(rr - ee) / rr - tol) <= Fr(1, 10 ** 6) for rr in ref for ee in est):
+            continue
+
+        def through(ref=ref, w=w, est=est):
+            a = mir_eval.io.load_delimited(io.StringIO("%s\t%s\t%s\n" % (dec(ref[0]), dec(ref[1]), dec(w))), [float] * 3)
+            b = mir_eval.io.load_delimited(io.StringIO("%s\t%s\t%s\n" % (dec(est[0]), dec(est[1]), dec(w))), [float] * 3)
+            return np.array([a[0][0], a[1][0]]), a[2][0], np.array([b[0][0], b[1][0]])
+        tag = ftag("tempo", kind)
+        info = _finfo(rp, ep, kind, op="tempo.detection", args=S([ref, w, est, tol]))
+        yield Case("tempo.detection", [ref, w, est, tol],
+                   lambda through=through, tol=tol: mir_eval.tempo.detection(*through(), tol=float(tol)), tag=tag, info=info,
+                   nontrivial=any(x > 0 for x in ref))
+        yield Case("tempo.evaluate", [ref, w, est, tol],
+                   lambda through=through, tol=tol: mir_eval.tempo.evaluate(*through(), tol=float(tol)), tag=tag,
+                   info=dict(info, op="tempo.evaluate"), nontrivial=any(x > 0 for x in ref))
+
+
+def suite_key(rng, tier, shard, nshards):
+    """key.weighted_score on the key files: every file pair as shipped, reversed, against itself, and every reference
+    against every estimate"""
+    pairs = _pairs("key")
+    keys = {p: load(mir_eval.io.load_key, p) for pr in pairs for p in pr}
+    todo = []
+    for rp, ep in pairs:
+        todo += [(rp, ep, "asis"), (ep, rp, "swap"), (rp, rp, "self")]
+    todo += [(rp, ep, "cross") for rp, _ in pairs for _, ep in pairs]
+    for i, (rp, ep, kind) in enumerate(todo):
+        if i % nshards != shard:
+            continue
+        r, e = keys[rp], keys[ep]
+
+        def call(r=r, e=e):
+            a = mir_eval.io.load_key(io.StringIO("\t".join(r.split(" ", 1)) + "\n"))
+            b = mir_eval.io.load_key(io.StringIO("\t".join(e.split(" ", 1)) + "\n"))
+            return mir_eval.key.weighted_score(a, b)
+        yield Case("key.weighted_score", [r, e], call, tag=ftag("key", kind), info=_finfo(rp, ep, kind, ref=r, est=e))
+
+
+PAT_KINDS = ["asis", "self", "swap", "dropocc", "droppattern", "shiftocc", "transpose", "thin", "truncate", "jitter"]
+
+
+def pattern_text(pats):
+    out = []
+    for i, pat in enumerate(pats):
+        out.append("pattern%d\n" % (i + 1))
+        for j, occ in enumerate(pat):
+            out.append("occurrence%d\n" % (j + 1))
+            for t, m in occ:
+                out.append("%s, %s\n" % (dec(t), dec(Fr(m))))
+    return "".join(out)
+
+
+def io_patterns(pats):
+    """through io.load_patterns (an empty pattern list / empty occurrences cannot be written in the MIREX format and are
+    handed over directly)"""
+    if not pats or any(not occ for pat in pats for occ in pat) or any(not pat for pat in pats):
+        from suites import pattern as SPT
+        return SPT.py(pats)
+    got = mir_eval.io.load_patterns(io.StringIO(pattern_text(pats)))
+    return [[[(t, int(m)) for t, m in occ] for occ in pat] for pat in got]
+
+
+def suite_pattern(rng, tier, shard, nshards):
+    """all pattern-discovery scores on the pattern files (hundreds of onsets per pattern set)"""
+    from suites import pattern as SPT
+    P = mir_eval.pattern
+    lim = nmax(tier, 40, 80)
+
+    def rd(path):
+        pats = mir_eval.io.load_patterns(path)
+        return [[[(snap(t), int(round(m))) for t, m in occ] for occ in pat] for pat in pats]
+    for (rp, ep), kind in plan(_pairs("pattern"), tier, shard, nshards, PAT_KINDS, quick=6, thorough=40):
+        ref = [[occ[:lim] for occ in pat] for pat in load(rd, rp)]
+        est = [[occ[:lim] for occ in pat] for pat in load(rd, ep)]
+        if kind == "self":
+            est = [[list(o) for o in p] for p in ref]
+        elif kind == "swap":
+            ref, est = est, ref
+        elif kind == "dropocc":
+            est = [[o for o in p if rng.random() >= 0.3] or p[:1] for p in est]
+        elif kind == "droppattern":
+            est = [p for p in est if rng.random() >= 0.3] or est[:1]
+        elif kind == "shiftocc":
+            est = [[SPT.shifted(o, Fr(rng.randint(-64, 64), LAT), 0) if rng.random() < 0.5 else o for o in p] for p in est]
+        elif kind == "transpose":
+            est = [[SPT.shifted(o, Fr(0), rng.choice([12, -5, 7])) if rng.random() < 0.5 else o for o in p] for p in est]
+        elif kind == "thin":
+            est = [[[x for x in o if rng.random() >= 0.2] or o[:1] for o in p] for p in est]
+        elif kind == "truncate":
+            est = est[:max(1, len(est) // 2)]
+        elif kind == "jitter":
+            est = [[[(t + Fr(rng.choice([-1, 1]), LAT), m) if rng.random() < 0.1 else (t, m) for t, m in o] for o in p]
+                   for p in est]
+        tag = ftag("pattern", kind)
+        info = _finfo(rp, ep, kind, n_ref=SPT.n_onsets(ref), n_est=SPT.n_onsets(est), ref=S(SPT.ex(ref)), est=S(SPT.ex(est)))
+        nt = SPT.n_onsets(ref) > 0 and SPT.n_onsets(est) > 0
+        R, E = SPT.ex(ref), SPT.ex(est)
+        tol = rng.choice([None, None, Fr(1, 32), Fr(1, 1024)])
+        thres = rng.choice([None, None, Fr(1, 2), Fr(3, 4), Fr(2, 3)])
+        nn = rng.choice([None, 1, 2, 5])
+        kt = {} if tol is None else {"tol": float(tol)}
+        kh = {} if thres is None else {"thres": float(thres)}
+        kn = {} if nn is None else {"n": nn}
+
+        def both(ref=ref, est=est):
+            return io_patterns(ref), io_patterns(est)
+        yield Case("pattern.standard_FPR", [R, E, tol], lambda both=both, kw=kt: P.standard_FPR(*both(), **kw), tag=tag,
+                   info=info, nontrivial=nt)
+        yield Case("pattern.establishment_FPR", [R, E, None], lambda both=both: P.establishment_FPR(*both()), tag=tag,
+                   info=info, nontrivial=nt)
+        yield Case("pattern.occurrence_FPR", [R, E, thres, None], lambda both=both, kw=kh: P.occurrence_FPR(*both(), **kw),
+                   tag=tag, info=info, nontrivial=nt)
+        yield Case("pattern.three_layer_FPR", [R, E], lambda both=both: P.three_layer_FPR(*both()), tag=tag, info=info,
+                   nontrivial=nt)
+        yield Case("pattern.first_n_three_layer_P", [R, E, nn], lambda both=both, kw=kn: P.first_n_three_layer_P(*both(), **kw),
+                   tag=tag, info=info, nontrivial=nt)
+        yield Case("pattern.first_n_target_proportion_R", [R, E, nn],
+                   lambda both=both, kw=kn: P.first_n_target_proportion_R(*both(), **kw), tag=tag, info=info, nontrivial=nt)
+        yield Case("pattern.evaluate", [R, E, None, None, None, None], lambda both=both: P.evaluate(*both()), tag=tag,
+                   info=info, nontrivial=nt)
+
+
+def _registered():
+    """name -> (fixture directories of which at least one must exist, generator)"""
+    s = {"onset_fixtures": (["onset"], suite_onset_fixtures), "beat_fixtures": (["beat"], suite_beat_fixtures),
+         "onset": (["onset"], suite_onset), "beat": (["beat"], suite_beat), "matching": (["beat", "onset"], suite_matching),
+         "alignment": (["alignment", "onset", "beat"], suite_alignment),
+         "segment_boundary": (["segment"], suite_segment_boundary), "segment_frames": (["segment"], suite_segment_frames),
+         "chord": (["chord"], suite_chord), "chord_labels": (["chord"], suite_chord_labels),
+         "hierarchy": (["hierarchy", "segment"], suite_hierarchy),
+         "melody": (["melody"], suite_melody), "multipitch": (["multipitch"], suite_multipitch),
+         "transcription": (["transcription"], suite_transcription),
+         "transcription_velocity": (["transcription_velocity"], suite_transcription_velocity),
+         "tempo": (["tempo"], suite_tempo), "key": (["key"], suite_key), "pattern": (["pattern"], suite_pattern)}
+    return {k: g for k, (need, g) in s.items() if any(have(d) for d in need)}
+
+
+# a task whose fixture directory is missing is skipped (its suite is not registered)
+SUITES = _registered()
